@@ -15,6 +15,7 @@ CHECKS = {
  'C12': ('relational: a stride sample of the C01/C03/C04/C05/C13 skeleton spaces plus all nested component trees is executed twice on the same path condition (optimize=false / true, other options symbolic and shared); Z3 shows on every path that the two outputs are equal once hint arguments and `_` keys are erased, that optimize=false emits no hints, and that the imported helpers are the same', '4 C12'),
  'C15': ('for every module skeleton within the bounds (comment texts fully symbolic over Unicode up to 7 (quick) / 9 (thorough) code points plus 16 candidate annotation texts; block/JSDoc/line comments at the file head, before a later statement and inside a function; pragma option absent/present) Z3 shows on every path that every vnode call in the module (top level, nested, inside a function) uses exactly the name the statement derives from the comments/option, and that createVNode is imported iff used', '4 C15'),
  'C17': ('for every prop type within the bounds (95 atoms incl. all keyword/literal/function/array/tuple/type-literal/built-in-class/utility forms; unions of two atoms, intersections, parentheses, NonNullable, array/tuple/property indexing, optional props; type-reference names fully symbolic up to 7 (quick) / 10 (thorough) characters with and without type arguments) Z3 shows on every path of resolveType that the emitted constructor list accepts, under Vue\'s validation rules, every kind of JS value that inhabits the declared type; two deviations (one fixture-locked, one not small) are known findings', '4 C17'),
+ 'C20': ('for every call skeleton within the bounds (11 binding provenances of `defineComponent` incl. a fully symbolic import source, 6 setup-argument forms, 21 options-argument forms, 10 declaration contexts, resolveType symbolic) Z3 shows on every path that non-eligible calls are left exactly as written and that, for eligible ones, the abstract value of every option key of the resulting options expression is the user\'s wherever the user (or an expression spread into the result) supplies it', '4 C20'),
  'C13': ('for every attribute multiset within the bounds (kind x name table incl. symbolic attribute names, spreads, v-model with computed argument, directives, v-html/v-text, on objects; element and component hosts; nested component trees for slot flags) with optimize on, Z3 shows on every path that flag / dynamic-prop list / slot `_` satisfy each clause of the statement, evaluated on the emitted props', '4 C13'),
  'C02': ('two kernels. (1) util::transform_text: for every JSX text of <=4 (quick) / <=6 (thorough) code points over the full Unicode alphabet Z3 shows the cleaned text equals the JSX whitespace rule on every path. (2) child-list construction: for element/Fragment/KeepAlive/custom-element skeletons with <=2 (quick) / <=3 (thorough) children of every kind (symbolic texts of 1..3 code points in every position, expressions, empties, comments, spread children, nested elements/fragments) Z3 shows the emitted children denote the written ones in order. Counterexamples are replayed on the native build before being reported; two Babel-compatible deviations are listed as known findings', '4 C02'),
 }
